@@ -251,3 +251,5 @@ func (w *world) pairs(rng *rand.Rand, limit int) [][2]addr.IA {
 	}
 	return all
 }
+
+func addrIA(v uint64) addr.IA { return addr.IA(v) }
